@@ -1,6 +1,7 @@
 import Rangers.Basic.Hex
 import Rangers.Basic.Line
 import Rangers.Model.Decimal
+import Rangers.Model.DecimalTx
 /-
 Line-protocol driver for C18 (decimal amount strings <-> 18-decimal integers).
 
@@ -26,6 +27,16 @@ Line-protocol driver for C18 (decimal amount strings <-> 18-decimal integers).
   basen <nat> <base>       BigIntBase10toN(n, base)       -> s <string>   (2 <= base <= 16)
   calldata <nat>           common.GenerateCallDataBigInt(n) -> s <string> arg-after=<n afterwards> (the Go loop zeroes its argument)
   size <hex-string> <d>    bit length of |strToBigInt(s, d)| -> bits <n> | err
+
+  decode <p005> <p017> <gasLimit-hex> <transferValue-hex> <abiData-hex>
+                           decodeContractData on {gasLimit, transferValue, abiData} -> ok <gas> <value> <input-hex> | err
+  convert <value> <gasPrice> <gas> <payload-hex>
+                           ConvertTx -> cd <gasPrice-hex> <gasLimit-hex> <transferValue-hex> <abiData-hex>
+  world <step>...          token layer of AccountDB on a fresh db: b<t>:<d> bind, s<t>:<a>:<int> SetFT, a.. AddFT,
+                           u.. SubFT, g<t>:<a> GetFT (tokens/accounts numbered) -> one answer token per step
+  u64b <u64> / b2u64 <hex> UInt64ToByte / ByteToUInt64      -> h <hex> / n <nat>
+  bbstr <hex>              BigIntBytesToStr                 -> s <string>
+  rawbal <int>             SetBalance(n); GetRawBalance     -> s <string>
 
 Strings travel as hex of their bytes (a byte b is the character with code b; the
 model only ever inspects ASCII). `parse` of a finite amount whose binary exponent
@@ -122,6 +133,48 @@ def ftSteps (d : Int) : List String → Nat → List String → Option (List Str
         | none => some (("NILPANIC" :: acc).reverse)
     | _ => none
 
+def natsOfBytes (bs : Bytes) : List Nat := bs.map (·.toNat)
+def bytesOfNats (ns : List Nat) : Bytes := ns.map UInt8.ofNat
+def hexOfStr (s : Str) : String := toHex (s.map (fun c => UInt8.ofNat c.toNat))
+
+def splitColon (s : String) : List String := s.splitOn ":"
+
+/-- run the steps of a `world` op -/
+def worldSteps : List String → World → List String → Option (List String)
+  | [], _, acc => some acc.reverse
+  | st :: rest, w, acc =>
+    match st.toList with
+    | c :: body =>
+      match c, (splitColon (String.ofList body)) with
+      | 'b', [t, d] =>
+        match t.toNat?, d.toNat? with
+        | some t, some d => let (w', ok) := wBind w t d; worldSteps rest w' (("b" ++ b01 ok) :: acc)
+        | _, _ => none
+      | 'g', [t, a] =>
+        match t.toNat?, a.toNat? with
+        | some t, some a => worldSteps rest w (("g:" ++ showResTok (wGet w t a)) :: acc)
+        | _, _ => none
+      | 's', [t, a, n] =>
+        match t.toNat?, a.toNat?, n.toInt? with
+        | some t, some a, some n => match wSet w t a n with
+          | some w' => worldSteps rest w' ("s" :: acc)
+          | none => some (("NILPANIC" :: acc).reverse)
+        | _, _, _ => none
+      | 'a', [t, a, n] =>
+        match t.toNat?, a.toNat?, n.toInt? with
+        | some t, some a, some n => match wAdd w t a n with
+          | some w' => worldSteps rest w' ("a" :: acc)
+          | none => some (("NILPANIC" :: acc).reverse)
+        | _, _, _ => none
+      | 'u', [t, a, n] =>
+        match t.toNat?, a.toNat?, n.toInt? with
+        | some t, some a, some n => match wSub w t a n with
+          | some (w', ok, r) => worldSteps rest w' (("u:" ++ b01 ok ++ ":" ++ showResTok r) :: acc)
+          | none => some (("NILPANIC" :: acc).reverse)
+        | _, _, _ => none
+      | _, _ => none
+    | [] => none
+
 def step (_ : Unit) (line : String) : Unit × String :=
   match splitWords line with
   | ["parse", h, d] =>
@@ -157,6 +210,48 @@ def step (_ : Unit) (line : String) : Unit × String :=
   | ["evmval", n] =>
     match n.toInt? with
     | some n => ((), showRes "err" (evmValue n))
+    | none => ((), "bad-op")
+  | ["decode", p5, p17, gl, tv, abi] =>
+    match ofHex? gl, ofHex? tv, ofHex? abi with
+    | some gl, some tv, some abi =>
+      if (p5 == "0" || p5 == "1") && (p17 == "0" || p17 == "1") then
+        let tvs := strOfBytes tv
+        let huge : Bool := match parseFloat tvs with
+          | some (.fin _ m e) => (bitLen m : Int) + e > bigLimit
+          | _ => false
+        if huge then ((), "unmodelled")
+        else match decodeContractData (p5 == "1") (p17 == "1") ⟨[], strOfBytes gl, tvs, strOfBytes abi⟩ with
+          | some (g, v, inp) => ((), "ok " ++ toString g ++ " " ++ toString v ++ " " ++ toHex (bytesOfNats inp))
+          | none => ((), "err")
+      else ((), "bad-op")
+    | _, _, _ => ((), "bad-op")
+  | ["convert", v, gp, g, pl] =>
+    match v.toNat?, gp.toNat?, g.toNat?, ofHex? pl with
+    | some v, some gp, some g, some pl =>
+      let cd := convertTxData v gp g (natsOfBytes pl)
+      ((), "cd " ++ hexOfStr cd.gasPrice ++ " " ++ hexOfStr cd.gasLimit ++ " " ++ hexOfStr cd.transferValue ++ " " ++ hexOfStr cd.abiData)
+    | _, _, _, _ => ((), "bad-op")
+  | "world" :: steps =>
+    match worldSteps steps World.empty [] with
+    | some out => ((), String.intercalate " " ("world" :: out))
+    | none => ((), "bad-op")
+  | ["u64b", n] =>
+    match n.toNat? with
+    | some n => if n < 2 ^ 64 then ((), "h " ++ toHex (bytesOfNats (uint64ToByte n))) else ((), "bad-op")
+    | none => ((), "bad-op")
+  | ["b2u64", h] =>
+    match ofHex? h with
+    | some b => ((), "n " ++ toString (byteToUInt64 (natsOfBytes b)))
+    | none => ((), "bad-op")
+  | ["bbstr", h] =>
+    match ofHex? h with
+    | some b => ((), showStr (bigIntBytesToStr (natsOfBytes b)))
+    | none => ((), "bad-op")
+  | ["rawbal", n] =>
+    match n.toInt? with
+    | some n => match ftSet 18 n with
+      | some b => ((), showStr (rawBalanceStr b))
+      | none => ((), "NILPANIC")
     | none => ((), "bad-op")
   | ["cfg", a, b, c] =>
     -- fork flags (Proposal 002 / 005 / 017): the model is flag-free (Props/C18Gen.gen_fork_flag_reads)
